@@ -202,6 +202,12 @@ func (g *Gun) shoot(ammo *ammo.Ammo) {
 		g.Aggr.Report(sample)
 	}()
 
+	if ammo.IsInvalid() {
+		// Provider failed to decode this entry (continue_on_error): nothing to send.
+		g.GunDeps.Log.Warn("Invalid ammo", zap.Uint64("request", ammo.ID()))
+		return
+	}
+
 	method, ok := g.Services[ammo.Call]
 	if !ok {
 		g.GunDeps.Log.Error("invalid ammo.Call", zap.String("method", ammo.Call),
